@@ -410,10 +410,10 @@ func TestC17(t *testing.T) {
 		kC17New.One(ev, mkFloat(0.49999999999999994/1e8))
 		kC17Unit.One(ev, c17Unit{A: 2099999999999999, U: -9})
 		kC17Unit.One(ev, c17Unit{A: 1234567, U: -12})
-		kC17New.Run(t, ev, perShard(pick(60000, 6000000)))
-		kC17Mono.Run(t, ev, perShard(pick(30000, 3000000)))
-		kC17Unit.Run(t, ev, perShard(pick(60000, 6000000)))
-		kC17Mul.Run(t, ev, perShard(pick(40000, 4000000)))
+		kC17New.Run(t, ev, perShard(pick(60000, 20000000)))
+		kC17Mono.Run(t, ev, perShard(pick(30000, 10000000)))
+		kC17Unit.Run(t, ev, perShard(pick(60000, 20000000)))
+		kC17Mul.Run(t, ev, perShard(pick(40000, 12000000)))
 		ev.requireClasses("C17:new-nan-inf", "C17:new-non-integer-product", "C17:new-integer-product>=2^52", "C17:monotone",
 			"C17:unit=-12", "C17:unit=-9", "C17:unit=-8", "C17:unit=0", "C17:unit=6", "C17:unit=12", "C17:mulf64")
 	})
